@@ -172,34 +172,48 @@ Forms(h, n) ==
        [] h.a = "f" -> {<<N("file", "", <<s>>), 0>>}
                        \cup (IF n > 1 THEN {<<N("file", "", <<s, s>>), 0>>} ELSE {})
 
+(***************************************************************************)
+(* The state holds the partial tree flattened in preorder: an item is      *)
+(* [k, a, n] (n = number of children) or a hole [k |-> "hole", a, n |-> 0, *)
+(* d].  The leftmost hole is then the first hole item, and replacing it is *)
+(* a splice; the tree is rebuilt (Unflat) only when it is complete.        *)
+(***************************************************************************)
+RECURSIVE Flat(_), FlatKids(_)
+FlatKids(cs) == IF cs = <<>> THEN <<>> ELSE Flat(Head(cs)) \o FlatKids(Tail(cs))
+Flat(x) ==
+  IF x.k = "hole" THEN <<[k |-> "hole", a |-> x.a, n |-> 0, d |-> x.d]>>
+  ELSE <<[k |-> x.k, a |-> x.a, n |-> Len(x.c)]>> \o FlatKids(x.c)
+
+\* <<tree, index after it>> of the subtree that starts at item i
+RECURSIVE Build(_, _), BuildKids(_, _, _, _)
+BuildKids(f, i, left, acc) ==           \* the next `left` subtrees starting at item i
+  IF left = 0 THEN <<acc, i>>
+  ELSE LET q == Build(f, i) IN BuildKids(f, q[2], left - 1, Append(acc, q[1]))
+Build(f, i) == LET r == BuildKids(f, i + 1, f[i].n, <<>>) IN <<N(f[i].k, f[i].a, r[1]), r[2]>>
+Unflat(f) == Build(f, 1)[1]
+
+FHasHole(f) == \E i \in 1..Len(f) : f[i].k = "hole"
+RECURSIVE FirstHole(_, _)
+FirstHole(f, i) == IF f[i].k = "hole" THEN i ELSE FirstHole(f, i + 1)
 \* number of statement holes that must still be filled (each needs budget 1): a form is
 \* only chosen if the budget left covers the holes it creates
-RECURSIVE Need(_)
-Need(x) == IF x.k = "hole" THEN (IF x.a \in {"s", "b"} THEN 1 ELSE 0)
-           ELSE LET r[i \in 0..Len(x.c)] == IF i = 0 THEN 0 ELSE r[i - 1] + Need(x.c[i]) IN r[Len(x.c)]
+FNeed(f) == Cardinality({i \in 1..Len(f) : f[i].k = "hole" /\ f[i].a \in {"s", "b"}})
 
-\* the leftmost hole of a partial tree, and the tree with that hole replaced by u
-RECURSIVE LeftHole(_), ReplaceLeft(_, _)
-FirstHoley(x) == CHOOSE j \in 1..Len(x.c) : HasHole(x.c[j]) /\ \A m \in 1..(j - 1) : ~HasHole(x.c[m])
-LeftHole(x) == IF x.k = "hole" THEN x ELSE LeftHole(x.c[FirstHoley(x)])
-ReplaceLeft(x, u) == IF x.k = "hole" THEN u
-                     ELSE LET i == FirstHoley(x) IN [x EXCEPT !.c[i] = ReplaceLeft(x.c[i], u)]
-
-\* the forms that may replace the leftmost hole of x with m budget left: the budget must
-\* still cover the statement holes that remain
-Admissible(x, m) ==
-  LET h == LeftHole(x)
-      rest == Need(x) - Need(h)
-  IN {p \in Forms(h, m) : Need(p[1]) + rest <= m - p[2]}
+\* the forms that may replace the leftmost hole with m budget left, flattened
+Admissible(f, m) ==
+  LET h == f[FirstHole(f, 1)]
+      rest == FNeed(f) - (IF h.a \in {"s", "b"} THEN 1 ELSE 0)
+  IN {q \in {<<Flat(p[1]), p[2]>> : p \in Forms(h, m)} : FNeed(q[1]) + rest <= m - q[2]}
+ReplaceLeft(f, u) == LET i == FirstHole(f, 1) IN SubSeq(f, 1, i - 1) \o u \o SubSeq(f, i + 1, Len(f))
 
 \* rename the identifiers "?" to v1, v2, ... in source order: <<tree, next number>>
-RECURSIVE Lab(_, _)
+RECURSIVE Lab(_, _), LabKids(_, _, _)
+LabKids(cs, n, acc) ==
+  IF cs = <<>> THEN <<acc, n>>
+  ELSE LET q == Lab(Head(cs), n) IN LabKids(Tail(cs), q[2], Append(acc, q[1]))
 Lab(x, n) ==
   IF x.k = "id" /\ x.a = "?" THEN <<[x EXCEPT !.a = "v" \o ToString(n)], n + 1>>
-  ELSE LET r[i \in 0..Len(x.c)] ==
-             IF i = 0 THEN <<<<>>, n>>
-             ELSE LET q == Lab(x.c[i], r[i - 1][2]) IN <<Append(r[i - 1][1], q[1]), q[2]>>
-       IN <<[x EXCEPT !.c = r[Len(x.c)][1]], r[Len(x.c)][2]>>
+  ELSE LET r == LabKids(x.c, n, <<>>) IN <<[x EXCEPT !.c = r[1]], r[2]>>
 
 Root == IF Mode = "expr" THEN H("e", MaxDepth) ELSE H("f", MaxDepth)
 
@@ -208,16 +222,18 @@ Rand(kk, nn) == LET x == ((kk % 32749) * 7919 + (Seed % 30011)) % 32749
                     y == (x * x + nn * 12347 + 101) % 32749
                 IN (y * y + x) % 32749
 
-Init == /\ t = Root /\ b = Budget /\ stp = 0
+Tree == Unflat(t)
+
+Init == /\ t = Flat(Root) /\ b = Budget /\ stp = 0
         /\ tid \in (IF Traces = 0 THEN {0} ELSE 1..Traces)
 Step(p) == /\ t' = ReplaceLeft(t, p[1])
-           /\ b' = IF HasHole(t') THEN b - p[2] ELSE 0
+           /\ b' = IF FHasHole(t') THEN b - p[2] ELSE 0
            /\ stp' = IF Traces = 0 THEN 0 ELSE stp + 1
            /\ tid' = tid
-Next == /\ HasHole(t)
+Next == /\ FHasHole(t)
         /\ IF Traces = 0 THEN \E p \in Admissible(t, b) : Step(p)
            ELSE LET S == SetToSeq(Admissible(t, b)) IN Step(S[1 + (Rand(tid, stp) % Len(S))])
 
 Record(x) == [tree |-> x, toks |-> IF Mode = "expr" THEN RenderExpr(x) ELSE RenderFile(x)]
-Emit == HasHole(t) \/ PrintT(<<"TREE", ToJson(Record(Lab(t, 1)[1]))>>)
+Emit == FHasHole(t) \/ PrintT(<<"TREE", ToJson(Record(Lab(Tree, 1)[1]))>>)
 =============================================================================
